@@ -165,6 +165,41 @@ def run(ctx):
              % total_const, None, key='LOAD|T|sum')
     # length checks that make the transient buffers "justified"
     iorules.take_bytes_length_check(ctx, 'T')
+    # ---------- T (cont.): collect() into a plain collection reserves the iterator's lower size bound up front.  For a range over a
+    # declared count (`(0..n).map(..).collect::<Vec<_>>()`) that is n elements before a single one is read (seed C12-k); collecting
+    # into Result<_>/Option<_> goes through an adapter whose lower bound is 0, and iterators over data already in memory are justified
+    EXACT = ('map', 'enumerate', 'rev', 'cloned', 'copied', 'inspect', 'zip', 'into_iter', 'by_ref', 'peekable')
+    WIDTH = {'byte': 255, 'word': 65535, 'short': 65535}
+    for b in load:
+        for c in q.calls(b, 'std::iter::Iterator::collect'):
+            dty = c.dest['ty']
+            if dty.startswith(('std::result::Result<', 'std::option::Option<')):
+                continue
+            src = q.arg_terms(c)[0]
+            while src[0] == 'call' and src[1].split('::')[-1] in EXACT and src[2]:
+                src = src[2][0]
+            verdict, why = 'input-justified', 'iterates data already in memory (%s)' % show(src)[:60]
+            if src[0] == 'agg' and src[1] in ('std::ops::Range', 'std::ops::RangeInclusive'):
+                end = strip_casts(dict(src[3]).get('end', ('unknown',)))
+                reads = [x for x in walk(end) if isinstance(x, tuple) and x and x[0] == 'call' and x[1].startswith(common.READER)]
+                kc = q.const_val(end)
+                if isinstance(kc, int):
+                    bound = kc
+                elif reads and all(x[1].split('::')[-1] in WIDTH for x in reads) and end in reads:
+                    bound = max(WIDTH[x[1].split('::')[-1]] for x in reads)
+                else:
+                    bound = None
+                esz = ([x for x in (c.fn.get('arg_sizes') or []) if x] or [128])[-1]
+                if bound is not None and bound * max(esz, 128) <= CAP:
+                    verdict, why = 'bounded-constant', 'at most %d elements reserved' % bound
+                else:
+                    verdict, why = 'declared-only', 'reserves one element per step of a range whose end %s is a declared count with no cap' % show(end)[:60]
+            elif src[0] == 'call' and src[1].split('::')[-1] in ('filter', 'filter_map', 'flat_map', 'flatten', 'take_while', 'skip_while', 'scan', 'map_while'):
+                verdict, why = 'input-justified', 'adapter %s has lower size bound 0: grows with the elements produced' % src[1].split('::')[-1]
+            ok = verdict != 'declared-only'
+            ctx.inst('T', '%s collect' % b.name.split('asefile::')[-1], ok, 'collect into %s: %s - %s' % (dty[:50], verdict, why), c.span,
+                     key=ctx.key(b.name, 'T', 'collect', ''))
+
     # ---------- G growth sinks
     ng = 0
     for b in load:
